@@ -40,6 +40,7 @@ type responseRouter struct {
 	c         chan<- response
 	streaming bool
 	method    string // the method of the request; a response must name the same method
+	sent      bool   // the request has been handed to a stream for writing (set by the sender)
 }
 
 type channel struct {
@@ -61,6 +62,7 @@ type channel struct {
 	streamCtx       context.Context
 	cancelStream    context.CancelFunc
 	responseRouters map[uint64]responseRouter
+	failedUnsent    map[uint64]bool // requests failed by cancelPendingMsgs before they were written; guarded by responseMut
 	responseMut     sync.Mutex
 }
 
@@ -78,6 +80,7 @@ func newChannel(n *RawNode) *channel {
 		latency:         -1 * time.Second,
 		rand:            rand.New(rand.NewSource(time.Now().UnixNano())),
 		responseRouters: make(map[uint64]responseRouter),
+		failedUnsent:    make(map[uint64]bool),
 		streamUp:        make(chan struct{}, 1),
 	}
 	// parentCtx controls the channel and is used to shut it down
@@ -121,6 +124,11 @@ func (c *channel) cancelPendingMsgs() {
 	defer c.responseMut.Unlock()
 	for msgID, router := range c.responseRouters {
 		router.c <- response{nid: c.node.ID(), err: streamDownErr}
+		if !router.sent {
+			// The request is still queued or with the sender. Its caller has now been told
+			// that it failed, so it must not be written to a later stream and executed.
+			c.failedUnsent[msgID] = true
+		}
 		// delete the router if we are only expecting a single reply message
 		if !router.streaming {
 			delete(c.responseRouters, msgID)
@@ -143,7 +151,7 @@ func (c *channel) routeResponse(msgID uint64, resp response) {
 func (c *channel) enqueue(req request, responseChan chan<- response, streaming bool) {
 	if responseChan != nil {
 		c.responseMut.Lock()
-		c.responseRouters[req.msg.Metadata.MessageID] = responseRouter{responseChan, streaming, req.msg.Metadata.Method}
+		c.responseRouters[req.msg.Metadata.MessageID] = responseRouter{c: responseChan, streaming: streaming, method: req.msg.Metadata.Method}
 		c.responseMut.Unlock()
 	}
 	// either enqueue the request on the sendQ or respond
@@ -165,6 +173,10 @@ func (c *channel) enqueue(req request, responseChan chan<- response, streaming b
 		// long time; the caller must not wait for it beyond its own context. The caller
 		// observes the end of its context itself, so the router is only removed.
 		c.deleteRouter(req.msg.Metadata.MessageID)
+		// the request never reaches the sender: forget that it may have been failed meanwhile
+		c.responseMut.Lock()
+		delete(c.failedUnsent, req.msg.Metadata.MessageID)
+		c.responseMut.Unlock()
 		return
 	case c.sendQ <- req:
 		// With a buffered sendQ the request may have been queued after the sender stopped.
@@ -203,6 +215,33 @@ func (c *channel) deleteRouter(msgID uint64) {
 	delete(c.responseRouters, msgID)
 }
 
+// failedBeforeSent reports (once) whether the request with the given message ID was failed by
+// cancelPendingMsgs while it was still waiting to be sent.
+func (c *channel) failedBeforeSent(msgID uint64) bool {
+	c.responseMut.Lock()
+	defer c.responseMut.Unlock()
+	failed := c.failedUnsent[msgID]
+	delete(c.failedUnsent, msgID)
+	return failed
+}
+
+// markSent records that the request with the given message ID is about to be written to the
+// current stream. It returns false if the request must not be written anymore, because its
+// caller has already been told that it failed (see cancelPendingMsgs).
+func (c *channel) markSent(msgID uint64) bool {
+	c.responseMut.Lock()
+	defer c.responseMut.Unlock()
+	if c.failedUnsent[msgID] {
+		delete(c.failedUnsent, msgID)
+		return false
+	}
+	if router, ok := c.responseRouters[msgID]; ok {
+		router.sent = true
+		c.responseRouters[msgID] = router
+	}
+	return true
+}
+
 func (c *channel) sendMsg(req request) (err error) {
 	defer func() {
 		// While the default is to block the caller until the message has been sent, we
@@ -224,6 +263,10 @@ func (c *channel) sendMsg(req request) (err error) {
 
 	c.streamMut.RLock()
 	defer c.streamMut.RUnlock()
+	if !c.markSent(req.msg.Metadata.MessageID) {
+		// failed while it was waiting to be sent; the caller knows
+		return nil
+	}
 	// The goroutine below may still be running after this method has returned and released
 	// the read lock, that is, while reconnect replaces c.cancelStream; read it here.
 	cancelStream := c.cancelStream
@@ -272,6 +315,10 @@ func (c *channel) sender() {
 			return
 		case req = <-c.sendQ:
 		}
+		if c.failedBeforeSent(req.msg.Metadata.MessageID) {
+			// the caller has already been told that this request failed
+			continue
+		}
 		// try to connect to the node if previous attempts
 		// have failed or if the node has disconnected
 		if !c.isConnected() {
@@ -299,12 +346,15 @@ func (c *channel) receiver() {
 		err := c.gorumsStream.RecvMsg(resp)
 		if err != nil {
 			c.streamBroken.set()
-			c.streamMut.RUnlock()
-			c.setLastErr(err)
 			// we only reach this point when the stream failed AFTER a message
 			// was sent and we are waiting for a reply. We thus need to respond
-			// with a stream is down error on all pending messages.
+			// with a stream is down error on all pending messages. This is done
+			// before the read lock is released, that is, before the sender can
+			// re-create the stream: a request written to the new stream must not
+			// be failed for the old one.
 			c.cancelPendingMsgs()
+			c.streamMut.RUnlock()
+			c.setLastErr(err)
 			// attempt to reconnect indefinitely until the node is closed.
 			// This is necessary when streaming is enabled.
 			c.reconnect(-1)
